@@ -7,6 +7,7 @@ observed bit-exactly through DQ/DB on the 8086 target.
 """
 import itertools, math, struct
 from .. import core, micro
+from ..fmt import pfile
 
 ID = 'C08'
 LEVEL = 'model_checking'
@@ -567,10 +568,53 @@ def subspaces(tier):
           (('2.0*1.0E-3', 2.0 * 1.0e-3), ('1.0E-3*2.0', 1.0e-3 * 2.0), ('1.0+1.0E-10', 1.0 + 1.0e-10), ('1.0E-10+1.0', 1.0e-10 + 1.0), ('1.0E-3', 1.0e-3),
            ('1.5E-3-1.0', 1.5e-3 - 1.0), ('1.0-1.5E-3', 1.0 - 1.5e-3), ('2.0^1.0E-1', math.pow(2.0, 0.1)), ('4.0/1.0E-2', 4.0 / 1.0e-2))]
     subs.append(('e:float-literal-with-negative-exponent-in-formula', micro.batches(pre, [], fl, 50)))
+    subs.append(('f:notation-state-across-passes', list(passstate_cases())))
     return subs
 
 
+PASS_STATES = ['radix 16', 'radix 2', 'radix 8', 'radix 36', 'outradix 2', 'outradix 10', 'relaxed on', "intsyntax +x'hex'", "intsyntax -0hex", "charset 'a',1",
+               "charset 'a','z','A'", 'dottedstructs on', 'enumconf 4']
+PASS_PROBES = ['\tdq 10', '\tdq 100', '\tdq 11h', '\tdb "abz"', '\tdb "\\{255}"', '\tdq 1010b', '\tdq 17o', "\tdb 'a'+1", '\tdq 0ffh', 'e1\tenum a1,b1\n\tdb b1']
+
+
+def passstate_cases():
+    """a statement that changes how numbers or characters are read holds from its line on - not, in the next pass, for the lines
+    in front of it: probes in front of the statement, a forward reference that forces a second pass"""
+    for st in PASS_STATES:
+        for n in (1, 2):
+            yield {'k': 'passstate', 'state': st, 'passes': n}
+
+
+def ev_passstate(case):
+    def src(with_state):
+        l = ['\tcpu 8086', '\torg 100h'] + PASS_PROBES
+        if case['passes'] == 2:
+            l += ['\tdw fwd']
+        l += ['\torg 400h']
+        if with_state:
+            l += ['\t' + case['state']]
+        l += ['fwd:\tdb 1']
+        return '\n'.join(l) + '\n'
+    res = []
+    for w in (0, 1):
+        core.fresh()
+        core.put('a.asm', src(w))
+        o = core.run('asl', ['-q', 'a.asm'])
+        ck = core.crashkind(o)
+        if ck:
+            return core.R(False, ck, 'passstate/crash/' + ck, '%s on %s' % (ck, src(w).replace('\n', ' / ')), transitions=2)
+        p = core.get('a.p')
+        if o.rc != 0 or p is None:
+            return core.R(False, 'rejected', 'passstate/rejected/' + case['state'].split()[0], 'rc=%s %s on %s' % (o.rc, (o.out + o.err)[-200:].decode('latin-1'), src(w).replace('\n', ' / ')), transitions=2)
+        res.append(b''.join(r.data for r in pfile.data_records(pfile.read(p)) if r.start < 0x400))
+    if res[0] != res[1]:
+        return core.R(False, 'state-leak', 'passstate/%s' % case['state'].split()[0], '`%s` at the end of the source changes the code of the lines in front of it (%d passes): %s vs %s' % (case['state'], case['passes'], res[1].hex()[:120], res[0].hex()[:120]), transitions=2)
+    return core.R(True, 'passstate-ok', states=['ps:' + case['state']], transitions=2)
+
+
 def describe(case):
+    if case['k'] == 'passstate':
+        return case
     if case['k'] == 'batch':
         return [it['e'] for it in case['items'][:5]]
     return case.get('e')
@@ -587,4 +631,6 @@ def sigf(it):
 
 
 def evaluate(case):
+    if case['k'] == 'passstate':
+        return ev_passstate(case)
     return micro.evaluate_batch(case, lambda a: 'org %d' % a, sigf)
